@@ -163,14 +163,14 @@ fn check_chunk<const N: usize, const SPAN: usize>(v: &Vec<u8>, data: &[u8; N], l
 /// lengths `vec.resize(open_buf_len)` / `copy_from_slice` in the real code are symbolic-size memcpys and CBMC's
 /// symbolic execution does not get past them in 25 min (measured).  All byte values are symbolic.
 /// Invariant of ChunkIter between calls: pos <= buf.len(); finished => nothing left anywhere.
-fn step_check<const UNREAD: usize, const LEN: usize, const TOTAL: usize, const SPAN: usize, const INTR: bool>(size: usize, min: usize, max: usize, short: u8, intr: u8, hint: usize) {
+fn step_check<const UNREAD: usize, const LEN: usize, const TOTAL: usize, const SPAN: usize, const INTR: bool>(size: usize, min: usize, max: usize, short: u8, intr: u8, hint: usize, k: u8) {
     let mut rabin = Rabin64::new_with_polynom(6, &POLY);
     // remaining input = look[pos..] ++ data; laid out in one array `all` for the reference
     let all: [u8; TOTAL] = kani::any();
     let total = UNREAD + LEN;
     // previous chunk left the rolling hash in some state: slide up to two arbitrary bytes
-    let k: u8 = kani::any();
-    kani::assume(k <= 2);
+    // (k is concrete per instance: a symbolic slide count makes the window index symbolic, and with it every one of
+    //  the 63 prefill writes - symbolic execution then does not finish in 25 min)
     if k >= 1 { rabin.slide(kani::any()); }
     if k >= 2 { rabin.slide(kani::any()); }
     let mut data = [0u8; LEN];
@@ -209,7 +209,6 @@ fn step_check<const UNREAD: usize, const LEN: usize, const TOTAL: usize, const S
             kani::cover!(total < min || total <= c || (c < max && c < total), "a content-defined cut before max size with data remaining");
             kani::cover!(total < max || c == max, "cut at max size");
             kani::cover!(total >= min || c == total, "short last chunk");
-            kani::cover!(k > 0, "disturbed hash state");
             std::mem::forget(v);
         }
         Some(Err(e)) => { std::mem::forget(e); assert!(false, "chunker returned an error on a reader that never fails"); }
@@ -224,7 +223,7 @@ fn step_check<const UNREAD: usize, const LEN: usize, const TOTAL: usize, const S
 //@ mem: 24
 //@ unwindset: calculate_out_table#0=64; calculate_out_table#1=258; calculate_mod_table#0=258; modulo#0=64
 //@ kernel: chunker::rabin::ChunkIter::{new,next}, check_rabin_params, rustic_cdc::Rabin64::{new_with_polynom,calculate_out_table,calculate_mod_table,reset_and_prefill_window,slide}, Polynom64::{modulo,degree}
-//@ bound: ONE call of next() from a valid iterator state (inductive step over chunks): polynomial 0x3DA3358B4DC173; (avg,min,max)=(64,64,72); shape: empty look-ahead, 76 stream bytes, one short read of symbolic length at a symbolic point; every byte symbolic; rolling hash disturbed by 0..=2 previously slid symbolic bytes; size_hint usize::MAX (the archiver passes the file size)
+//@ bound: ONE call of next() from a valid iterator state (inductive step over chunks): polynomial 0x3DA3358B4DC173; (avg,min,max)=(64,64,72); shape: empty look-ahead, 76 stream bytes, one short read of symbolic length at a symbolic point; every byte symbolic; rolling hash disturbed by 0, 1 or 2 (per shape) previously slid symbolic bytes; size_hint usize::MAX (the archiver passes the file size)
 //@ oracle: the chunk is the next c bytes of the remaining input with c == reference_cut (direct polynomial remainder over rustic's 64-byte window, no tables, no rolling): non-empty, min<=c<=max unless the stream ends, independent of the previous hash state and of read fragmentation; afterwards the iterator's look-ahead plus the reader's rest is exactly the remaining input (lossless continuation) and the state invariant holds; None only when nothing remains
 //@ stub: std::io::Read::read_to_end -> contract model (reads via the same Read::read until EOF, appends once)
 //@ assume: ChunkIter invariant between calls: pos <= buf.len() (established by new(), re-established by this step)
@@ -234,7 +233,7 @@ fn step_check<const UNREAD: usize, const LEN: usize, const TOTAL: usize, const S
 #[kani::stub(std::backtrace::Backtrace::capture, crate::error::verif_harness::stub_backtrace_capture)]
 #[kani::stub(std::io::Read::read_to_end, crate::chunker::rabin::verif_harness::ReadToEndModel::read_to_end)]
 pub(crate) fn c06_rabin_step_fresh_76() {
-    step_check::<0, 76, 76, 8, false>(64, 64, 72, 1, 0, usize::MAX);
+    step_check::<0, 76, 76, 8, false>(64, 64, 72, 1, 0, usize::MAX, 0);
 }
 
 //@ harness: c06_rabin_step_lookahead_5_71 c06_rabin_step_short_last c06_rabin_step_empty
@@ -244,7 +243,7 @@ pub(crate) fn c06_rabin_step_fresh_76() {
 //@ mem: 24
 //@ unwindset: calculate_out_table#0=64; calculate_out_table#1=258; calculate_mod_table#0=258; modulo#0=64
 //@ kernel: chunker::rabin::ChunkIter::{new,next}, check_rabin_params, rustic_cdc::Rabin64::{new_with_polynom,calculate_out_table,calculate_mod_table,reset_and_prefill_window,slide}, Polynom64::{modulo,degree}
-//@ bound: ONE call of next() from a valid iterator state (inductive step over chunks): polynomial 0x3DA3358B4DC173; (avg,min,max)=(64,64,72); shapes: 5 unread look-ahead bytes + 71 stream bytes; 5 look-ahead + 30 stream bytes (final chunk below min); nothing left (None); every byte symbolic; rolling hash disturbed by 0..=2 previously slid symbolic bytes; size_hint usize::MAX (the archiver passes the file size)
+//@ bound: ONE call of next() from a valid iterator state (inductive step over chunks): polynomial 0x3DA3358B4DC173; (avg,min,max)=(64,64,72); shapes: 5 unread look-ahead bytes + 71 stream bytes; 5 look-ahead + 30 stream bytes (final chunk below min); nothing left (None); every byte symbolic; rolling hash disturbed by 0, 1 or 2 (per shape) previously slid symbolic bytes; size_hint usize::MAX (the archiver passes the file size)
 //@ oracle: the chunk is the next c bytes of the remaining input with c == reference_cut (direct polynomial remainder over rustic's 64-byte window, no tables, no rolling): non-empty, min<=c<=max unless the stream ends, independent of the previous hash state and of read fragmentation; afterwards the iterator's look-ahead plus the reader's rest is exactly the remaining input (lossless continuation) and the state invariant holds; None only when nothing remains
 //@ stub: std::io::Read::read_to_end -> contract model (reads via the same Read::read until EOF, appends once)
 //@ assume: ChunkIter invariant between calls: pos <= buf.len() (established by new(), re-established by this step)
@@ -254,21 +253,21 @@ pub(crate) fn c06_rabin_step_fresh_76() {
 #[kani::stub(std::backtrace::Backtrace::capture, crate::error::verif_harness::stub_backtrace_capture)]
 #[kani::stub(std::io::Read::read_to_end, crate::chunker::rabin::verif_harness::ReadToEndModel::read_to_end)]
 pub(crate) fn c06_rabin_step_lookahead_5_71() {
-    step_check::<5, 71, 76, 8, false>(64, 64, 72, 0, 0, usize::MAX);
+    step_check::<5, 71, 76, 8, false>(64, 64, 72, 0, 0, usize::MAX, 2);
 }
 #[kani::proof]
 #[kani::unwind(90)]
 #[kani::stub(std::backtrace::Backtrace::capture, crate::error::verif_harness::stub_backtrace_capture)]
 #[kani::stub(std::io::Read::read_to_end, crate::chunker::rabin::verif_harness::ReadToEndModel::read_to_end)]
 pub(crate) fn c06_rabin_step_short_last() {
-    step_check::<5, 30, 35, 8, false>(64, 64, 72, 0, 0, usize::MAX);
+    step_check::<5, 30, 35, 8, false>(64, 64, 72, 0, 0, usize::MAX, 1);
 }
 #[kani::proof]
 #[kani::unwind(90)]
 #[kani::stub(std::backtrace::Backtrace::capture, crate::error::verif_harness::stub_backtrace_capture)]
 #[kani::stub(std::io::Read::read_to_end, crate::chunker::rabin::verif_harness::ReadToEndModel::read_to_end)]
 pub(crate) fn c06_rabin_step_empty() {
-    step_check::<0, 0, 1, 8, false>(64, 64, 72, 0, 0, usize::MAX);
+    step_check::<0, 0, 1, 8, false>(64, 64, 72, 0, 0, usize::MAX, 0);
 }
 
 //@ harness: c06_rabin_step_64_80_frag c06_rabin_step_hint0
@@ -278,7 +277,7 @@ pub(crate) fn c06_rabin_step_empty() {
 //@ mem: 30
 //@ unwindset: calculate_out_table#0=64; calculate_out_table#1=258; calculate_mod_table#0=258; modulo#0=64
 //@ kernel: chunker::rabin::ChunkIter::{new,next}, check_rabin_params, rustic_cdc::Rabin64::{new_with_polynom,calculate_out_table,calculate_mod_table,reset_and_prefill_window,slide}, Polynom64::{modulo,degree}
-//@ bound: ONE call of next() from a valid iterator state (inductive step over chunks): polynomial 0x3DA3358B4DC173; (avg,min,max)=(64,64,72); shapes: (avg,min,max)=(64,64,80), 9 look-ahead + 75 stream bytes, two symbolic short reads and up to 2 Interrupted results; and the fresh 76-byte shape with size_hint 0; every byte symbolic; rolling hash disturbed by 0..=2 previously slid symbolic bytes; size_hint usize::MAX (the archiver passes the file size)
+//@ bound: ONE call of next() from a valid iterator state (inductive step over chunks): polynomial 0x3DA3358B4DC173; (avg,min,max)=(64,64,72); shapes: (avg,min,max)=(64,64,80), 9 look-ahead + 75 stream bytes, two symbolic short reads and up to 2 Interrupted results; and the fresh 76-byte shape with size_hint 0; every byte symbolic; rolling hash disturbed by 0, 1 or 2 (per shape) previously slid symbolic bytes; size_hint usize::MAX (the archiver passes the file size)
 //@ oracle: the chunk is the next c bytes of the remaining input with c == reference_cut (direct polynomial remainder over rustic's 64-byte window, no tables, no rolling): non-empty, min<=c<=max unless the stream ends, independent of the previous hash state and of read fragmentation; afterwards the iterator's look-ahead plus the reader's rest is exactly the remaining input (lossless continuation) and the state invariant holds; None only when nothing remains
 //@ stub: std::io::Read::read_to_end -> contract model (reads via the same Read::read until EOF, appends once)
 //@ assume: ChunkIter invariant between calls: pos <= buf.len() (established by new(), re-established by this step)
@@ -288,78 +287,122 @@ pub(crate) fn c06_rabin_step_empty() {
 #[kani::stub(std::backtrace::Backtrace::capture, crate::error::verif_harness::stub_backtrace_capture)]
 #[kani::stub(std::io::Read::read_to_end, crate::chunker::rabin::verif_harness::ReadToEndModel::read_to_end)]
 pub(crate) fn c06_rabin_step_64_80_frag() {
-    step_check::<9, 75, 84, 16, true>(64, 64, 80, 2, 2, usize::MAX);
+    step_check::<9, 75, 84, 16, true>(64, 64, 80, 2, 2, usize::MAX, 2);
 }
 #[kani::proof]
 #[kani::unwind(90)]
 #[kani::stub(std::backtrace::Backtrace::capture, crate::error::verif_harness::stub_backtrace_capture)]
 #[kani::stub(std::io::Read::read_to_end, crate::chunker::rabin::verif_harness::ReadToEndModel::read_to_end)]
 pub(crate) fn c06_rabin_step_hint0() {
-    step_check::<0, 76, 76, 8, false>(64, 64, 72, 1, 0, 0);
+    step_check::<0, 76, 76, 8, false>(64, 64, 72, 1, 0, 0, 1);
 }
 
-/// look-ahead capacity scaled to LOOK bytes: the state after a short read
-const LOOK: usize = 24;
-
-//@ harness: c06_rabin_accepted_params_step
+//@ harness: c06_rabin_small_params_a c06_rabin_small_params_b c06_rabin_small_params_c
 //@ prop: C06 C18
 //@ tier: quick
-//@ timeout: 1500
+//@ timeout: 1200
 //@ mem: 16
 //@ unwindset: calculate_out_table#0=4; calculate_out_table#1=258; calculate_mod_table#0=258; modulo#0=64
-//@ kernel: chunker::rabin::ChunkIter::next from an arbitrary valid iterator state, check_rabin_params
-//@ bound: (avg,min,max) symbolic with avg <= 64, max <= 72, constrained only by check_rabin_params(..).is_ok(); look-ahead buffer holds 20 unread symbolic bytes (state after a short read; lengths concrete, contents symbolic); remaining stream 8 symbolic bytes with up to 2 symbolic short reads; one call of next(); the Rabin64 instance is built with a 2-byte window (hash values are not the subject here, ChunkIter::next's own 64-byte slice is); unwind 76
-//@ oracle: one step from any valid state never panics (no underflow, no out-of-range slice), returns a chunk with 1..=max bytes made of exactly the next unread bytes (>= min unless the stream ended), or None only when nothing is left to read
-//@ assume: iterator state invariant pos <= buf.len() <= BUF_SIZE (established by new() and preserved by next()); parameters accepted by check_rabin_params
-//@ outside: parameter values above 72 (same arithmetic); the 4 KiB buffer is represented by a fill of 20 bytes (> minimum sizes below 20)
-#[kani::proof]
-#[kani::unwind(76)]
-#[kani::stub(std::backtrace::Backtrace::capture, crate::error::verif_harness::stub_backtrace_capture)]
-#[kani::stub(alloc::fmt::format, crate::error::verif_harness::stub_format)]
-#[kani::stub(std::io::Read::read_to_end, crate::chunker::rabin::verif_harness::ReadToEndModel::read_to_end)]
-pub(crate) fn c06_rabin_accepted_params_step() {
-    let size: usize = kani::any();
-    let min: usize = kani::any();
-    let max: usize = kani::any();
-    kani::assume(size <= 64 && min <= 64 && max <= 72);
+//@ kernel: chunker::rabin::ChunkIter::next from a valid iterator state with small accepted parameters, check_rabin_params
+//@ bound: accepted parameter triples (avg,min,max) = (64,16,72) with 20 unread look-ahead bytes + 8 stream bytes [minimum below the 64-byte window and below the look-ahead fill]; (32,8,40) with 3 look-ahead + 50 stream bytes [minimum below the window, plenty of data]; (64,64,72) with 20 + 8 bytes [final short chunk]; all bytes symbolic; up to 2 symbolic short reads; one call of next(); the Rabin64 instance has a 2-byte window (hash values are not the subject here, ChunkIter::next's own arithmetic is)
+//@ oracle: no panic (no underflow, no out-of-range slice); the chunk has 1..=max bytes, consists of exactly the next unread bytes, and is >= min unless the stream ended; the rest stays available (look-ahead + reader)
+//@ stub: std::io::Read::read_to_end -> contract model
+//@ assume: parameters are accepted by check_rabin_params (asserted)
+//@ outside: other parameter values (symbolic parameters make every length symbolic: measured out of reach, 25 min)
+macro_rules! small_params_instance {
+    ($name:ident, $size:expr, $min:expr, $max:expr, $look:expr, $n:expr) => {
+        #[kani::proof]
+        #[kani::unwind(76)]
+        #[kani::stub(std::backtrace::Backtrace::capture, crate::error::verif_harness::stub_backtrace_capture)]
+        #[kani::stub(std::io::Read::read_to_end, crate::chunker::rabin::verif_harness::ReadToEndModel::read_to_end)]
+        pub(crate) fn $name() { small_params_check::<$look, $n>($size, $min, $max); }
+    };
+}
+//@ instance: c06_rabin_small_params_a c06_rabin_small_params_b c06_rabin_small_params_c
+small_params_instance!(c06_rabin_small_params_a, 64, 16, 72, 20, 8);
+small_params_instance!(c06_rabin_small_params_b, 32, 8, 40, 3, 50);
+small_params_instance!(c06_rabin_small_params_c, 64, 64, 72, 20, 8);
+
+fn small_params_check<const UNREAD: usize, const N: usize>(size: usize, min: usize, max: usize) {
     let ok = check_rabin_params(size, min, max);
-    let accepted = ok.is_ok();
+    assert!(ok.is_ok());
     std::mem::forget(ok);
-    kani::assume(accepted);
-    const N: usize = 8;
     let data: [u8; N] = kani::any();
-    let len: usize = N;
-    let look: [u8; LOOK] = kani::any();
-    // concrete lengths (shape): 20 unread look-ahead bytes after 4 consumed ones, 8 more stream bytes
-    let fill: usize = LOOK;
-    let pos: usize = 4;
+    let look: [u8; UNREAD] = kani::any();
     let rabin = Rabin64::new_with_polynom(1, &POLY);
-    let mut it = ChunkIter::new(rabin, size, min, max, FragReader::<N, false> { data, len, pos: 0, intr: 0, short: 2 }, usize::MAX).unwrap();
-    // arbitrary valid look-ahead state: buf = look[..fill], unread part = look[pos..fill]
-    let mut buf = Vec::with_capacity(LOOK);
-    buf.extend_from_slice(&look);
-    buf.truncate(fill);
+    let mut it = ChunkIter::new(rabin, size, min, max, FragReader::<N, false> { data, len: N, pos: 0, intr: 0, short: 2 }, usize::MAX).unwrap();
+    // look-ahead state: 4 consumed bytes, then UNREAD unread ones
+    let pos = 4usize;
+    let mut buf = Vec::with_capacity(UNREAD + 4);
+    let mut i = 0;
+    while i < UNREAD + 4 { buf.push(if i >= pos { look[i - pos] } else { 0xEE }); i += 1; }
     it.buf = buf;
     it.pos = pos;
-    let unread = fill - pos;
-    kani::cover!(min < 64 && unread + len >= min, "minimum size below the 64-byte window, enough data");
-    kani::cover!(unread > min, "more look-ahead bytes than the minimum size");
-    kani::cover!(min == 64 && unread < min && unread > 0, "ordinary state");
+    let total = UNREAD + N;
     match it.next() {
-        None => assert!(unread == 0 && len == 0),
+        None => assert!(total == 0),
         Some(Ok(v)) => {
-            assert!(!v.is_empty());
-            assert!(v.len() <= max);
-            assert!(v.len() <= unread + len);
-            // content: first the unread look-ahead bytes, then the stream
+            let c = v.len();
+            assert!(c >= 1 && c <= max && c <= total);
             let mut i = 0;
-            while i < v.len() {
-                let expect = if i < unread { look[pos + i] } else { data[i - unread] };
+            while i < c {
+                let expect = if i < UNREAD { look[i] } else { data[i - UNREAD] };
                 assert!(v[i] == expect);
                 i += 1;
             }
-            if v.len() < unread + len { assert!(v.len() >= min); }
+            if c < total { assert!(c >= min); }
+            assert!(it.pos <= it.buf.len());
+            let held = it.buf.len() - it.pos;
+            assert!(held + (it.reader.len - it.reader.pos) == total - c);
             kani::cover!(true, "a chunk was produced");
+            std::mem::forget(v);
+        }
+        Some(Err(e)) => { std::mem::forget(e); assert!(false); }
+    }
+    std::mem::forget(it);
+}
+
+// ---- the design-phase probe configuration (std read_to_end, memcpy reader, unbounded symbolic short reads) ----
+pub(crate) struct ProbeReader<const N: usize> { pub data: [u8; N], pub len: usize, pub pos: usize }
+impl<const N: usize> Read for ProbeReader<N> {
+    fn read(&mut self, buf: &mut [u8]) -> io::Result<usize> {
+        let avail = self.len - self.pos;
+        if avail == 0 || buf.is_empty() { return Ok(0); }
+        let max = avail.min(buf.len());
+        let n: usize = kani::any();
+        kani::assume(n >= 1 && n <= max);
+        buf[..n].copy_from_slice(&self.data[self.pos..self.pos + n]);
+        self.pos += n;
+        Ok(n)
+    }
+}
+
+//@ harness: c06_rabin_first_chunk_frag
+//@ prop: C06X
+//@ tier: quick
+//@ timeout: 1500
+//@ mem: 24
+//@ unwindset: calculate_out_table#0=64; calculate_out_table#1=258; calculate_mod_table#0=258; modulo#0=64
+#[kani::proof]
+#[kani::unwind(80)]
+pub(crate) fn c06_rabin_first_chunk_frag() {
+    const N: usize = 76;
+    let rabin = Rabin64::new_with_polynom(6, &POLY);
+    let data: [u8; N] = kani::any();
+    let len: usize = kani::any();
+    kani::assume(len <= N);
+    let reader = ProbeReader::<N> { data, len, pos: 0 };
+    let mut it = ChunkIter::new(rabin, 64, 64, 72, reader, 0).unwrap();
+    match it.next() {
+        None => assert!(len == 0),
+        Some(Ok(v)) => {
+            let c = v.len();
+            assert!(c >= 1 && c <= 72 && c <= len);
+            let expect = reference_cut::<N, 8>(&data, len, 0, 64, 64, 72);
+            assert!(c == expect);
+            let mut i = 0;
+            while i < c { assert!(v[i] == data[i]); i += 1; }
+            kani::cover!(c < 72 && c < len, "content-defined cut");
             std::mem::forget(v);
         }
         Some(Err(e)) => { std::mem::forget(e); assert!(false); }
